@@ -97,6 +97,7 @@ def detect_all(extra):
             code, out = sh([PY, "/verif/check.py", prop] + extra, env=dict(os.environ, VERIF_OUT=out_dir), timeout=7200)
         finally:
             sh(["git", "-C", "/repo", "checkout", "--", "."])
+            sh(["git", "-C", "/repo", "clean", "-fdq", "src"])
             shutil.rmtree(out_dir, ignore_errors=True)
         clauses = sorted({line.split("clause=")[1].split(" ")[0] for line in out.splitlines()
                           if line.strip().startswith("clause=")})
@@ -116,7 +117,39 @@ def detect_all(extra):
     return 0 if not missed else 1
 
 
+def benign_all(extra):
+    """property-preserving changes (/verif/benign/*): the named check must exit 0 with them applied"""
+    results = []
+    for benign_dir in sorted(glob.glob("/verif/benign/*/")):
+        meta = json.load(open(os.path.join(benign_dir, "meta.json"), encoding="utf-8"))
+        prop = meta["property_check_that_alarms"][:3]
+        out_dir = tempfile.mkdtemp(prefix="seed-detect-")
+        code, out = sh(["git", "-C", "/repo", "apply", os.path.join(benign_dir, "patch.diff")])
+        if code != 0:
+            results.append({"id": os.path.basename(benign_dir.rstrip("/")), "status": "PATCH-DOES-NOT-APPLY"})
+            print(json.dumps(results[-1]))
+            continue
+        try:
+            code, out = sh([PY, "/verif/check.py", prop] + extra, env=dict(os.environ, VERIF_OUT=out_dir), timeout=7200)
+        finally:
+            sh(["git", "-C", "/repo", "checkout", "--", "."])
+            sh(["git", "-C", "/repo", "clean", "-fdq", "src"])
+            shutil.rmtree(out_dir, ignore_errors=True)
+        entry = {"id": os.path.basename(benign_dir.rstrip("/")), "property": prop, "exit": code,
+                 "status": "quiet" if code == 0 and "VIOLATION" not in out else "FALSE-ALARM"}
+        print(json.dumps(entry), flush=True)
+        results.append(entry)
+    os.makedirs("/verif/selftest_results", exist_ok=True)
+    with open("/verif/selftest_results/benign.json", "w", encoding="utf-8") as stream:
+        json.dump(results, stream, indent=1)
+    bad = [r for r in results if r["status"] != "quiet"]
+    print(f"BENIGN: {len(results) - len(bad)}/{len(results)} quiet")
+    return 0 if not bad else 1
+
+
 if __name__ == "__main__":
+    if sys.argv[1] == "benign-all":
+        sys.exit(benign_all(sys.argv[2:]))
     if sys.argv[1] == "detect-all":
         sys.exit(detect_all(sys.argv[2:]))
     if sys.argv[1] == "verify":
